@@ -557,6 +557,7 @@ type multiPolys struct {
 	SA, SB     [][]bool // per family, per ring: selected for A / B
 	Perm       []int    // input order of A's loops (index into the flattened selection)
 	InvA, InvB bool     // complement via Polygon.Invert()
+	Oriented   bool     // build A with PolygonFromOrientedLoops (holes given clockwise)
 }
 
 func genMultiPolys(t *rapid.T) multiPolys {
@@ -566,7 +567,17 @@ func genMultiPolys(t *rapid.T) multiPolys {
 	}
 	nf := rapid.IntRange(1, 3).Draw(t, "families")
 	faces := rapid.Permutation([]int{0, 1, 2, 3, 4, 5}).Draw(t, "faces")
-	c := multiPolys{}
+	if rapid.Bool().Draw(t, "pole") {
+		// make sure a family sits on the north pole, next to s2.OriginPoint(),
+		// in a drawn position of the input order
+		k := rapid.IntRange(0, nf-1).Draw(t, "polepos")
+		for i, f := range faces {
+			if f == 2 {
+				faces[i], faces[k] = faces[k], faces[i]
+			}
+		}
+	}
+	c := multiPolys{Oriented: rapid.Bool().Draw(t, "oriented")}
 	total := 0
 	for f := 0; f < nf; f++ {
 		centre := s2.Point{Vector: gen.FaceUVToXYZ(faces[f], 0, 0)}
@@ -591,10 +602,17 @@ func checkMultiPolys(c multiPolys) ev.Outcome {
 	o := ev.Outcome{}
 	build := func(sel [][]bool, perm []int) *s2.Polygon {
 		var flat []*s2.Loop
+		oriented := c.Oriented && perm != nil // only A is built from oriented loops
 		for f, rp := range c.F {
+			depth := 0
 			for i, ring := range rp.Rings {
 				if f < len(sel) && i < len(sel[f]) && sel[f][i] {
-					flat = append(flat, loopOf(ring))
+					if oriented && depth%2 == 1 {
+						flat = append(flat, loopOf(rev(ring))) // a hole: clockwise
+					} else {
+						flat = append(flat, loopOf(ring))
+					}
+					depth++
 				}
 			}
 		}
@@ -617,6 +635,9 @@ func checkMultiPolys(c multiPolys) ev.Outcome {
 			}
 		} else {
 			loops = flat
+		}
+		if oriented {
+			return s2.PolygonFromOrientedLoops(loops)
 		}
 		return s2.PolygonFromLoops(loops)
 	}
@@ -663,7 +684,7 @@ func checkMultiPolys(c multiPolys) ev.Outcome {
 			consider(memSel(c.SA, f, x), memSel(c.SB, f, x))
 		}
 	}
-	o.Class = fmt.Sprintf("families=%d/shellsA=%d/inv=%v,%v/contains=%v/intersects=%v", len(c.F), shellsA, c.InvA, c.InvB, wantContains, wantIntersects)
+	o.Class = fmt.Sprintf("families=%d/shellsA=%d/oriented=%v/inv=%v,%v/contains=%v/intersects=%v", len(c.F), shellsA, c.Oriented, c.InvA, c.InvB, wantContains, wantIntersects)
 	o.NonTrivial = shellsA >= 2 || c.InvA || c.InvB
 	// membership of the known atom centres after inversion (centre of family f is in band k_f)
 	for f, rp := range c.F {
